@@ -375,13 +375,17 @@ Print Assumptions C06_step_time_nonvacuous.
     from the SOURCE on every run into PrimFloat terms (Gen/TrF.v, harness/vt/pytr.py), is the sigma the step-time
     round-trip theorems above are stated for — bit for bit, for all arguments. *)
 Theorem C06_source_seconds_per_step : forall (spq sps : Z) (qpm : PrimFloat.float),
-  NS.Gen.TrF.trf_sigma_melody spq qpm = Some (sigma_rel qpm spq) /\
-  NS.Gen.TrF.trf_sigma_drums spq qpm = Some (sigma_rel qpm spq) /\
-  NS.Gen.TrF.trf_sigma_chords spq qpm = Some (sigma_rel qpm spq) /\
-  NS.Gen.TrF.trf_sigma_pianoroll spq qpm = Some (sigma_rel qpm spq) /\
-  NS.Gen.TrF.trf_sigma_metric spq qpm = Some (sigma_metric qpm spq) /\
-  NS.Gen.TrF.trf_sigma_performance sps = Some (sigma_abs sps) /\
-  NS.Gen.TrF.trf_sigma_noteperformance sps = Some (sigma_abs sps).
+  let guard_rel := NS.Proofs.TrEquivF06.guard_rel in
+  NS.Gen.TrF.trf_sigma_melody spq qpm = guard_rel spq qpm (sigma_rel qpm spq) /\
+  NS.Gen.TrF.trf_sigma_drums spq qpm = guard_rel spq qpm (sigma_rel qpm spq) /\
+  NS.Gen.TrF.trf_sigma_chords spq qpm = guard_rel spq qpm (sigma_rel qpm spq) /\
+  NS.Gen.TrF.trf_sigma_pianoroll spq qpm = guard_rel spq qpm (sigma_rel qpm spq) /\
+  NS.Gen.TrF.trf_sigma_metric spq qpm =
+    (if PrimFloat.eqb (PrimFloat.mul (f_of_Z spq) qpm) PrimFloat.zero then None else Some (sigma_metric qpm spq)) /\
+  NS.Gen.TrF.trf_sigma_performance sps =
+    (if PrimFloat.eqb (f_of_Z sps) PrimFloat.zero then None else Some (sigma_abs sps)) /\
+  NS.Gen.TrF.trf_sigma_noteperformance sps =
+    (if PrimFloat.eqb (f_of_Z sps) PrimFloat.zero then None else Some (sigma_abs sps)).
 Proof.
   intros spq sps qpm.
   exact (conj (NS.Proofs.TrEquivF06.trf_sigma_melody_eq spq qpm)
@@ -394,8 +398,10 @@ Proof.
 Qed.
 Print Assumptions C06_source_seconds_per_step.
 
-(** ... and so are the quantizer functions the round trip goes back through (shared with C01). *)
+(** ... and so are the quantizer functions the round trip goes back through (shared with C01);
+    [None] = int() of a non-finite float raises. *)
 Theorem C06_source_quantize_to_step : forall t sps,
-  NS.Gen.TrF.trf_quantize_to_step t sps NS.Model.Quantize.cutoff = Some (NS.Model.Quantize.q2s t sps).
+  NS.Gen.TrF.trf_quantize_to_step t sps NS.Model.Quantize.cutoff =
+  if finb (PrimFloat.add (PrimFloat.mul t sps) NS.Model.Quantize.one_minus_cutoff) then Some (NS.Model.Quantize.q2s t sps) else None.
 Proof. exact NS.Proofs.TrEquivF.trf_quantize_to_step_eq. Qed.
 Print Assumptions C06_source_quantize_to_step.
